@@ -1054,6 +1054,8 @@ class VepTable(Contract):
         st.comment = z3.Function('vep_line_is_a_comment', I_, B_)
         st.single = z3.Function('vep_column_has_one_part', I_, I_, B_)
         st.dash = z3.Function('vep_column_is_a_dash', I_, I_, B_)
+        if T14.first_loop_kind(I, self.path, self.qualname) != 'for':
+            raise Unsupported('the reader is not written as `for line in handle` (this contract follows that form)')
         zz = lambda i: i if is_z3(i) else z3.IntVal(i)
         st.args = [FnView(st.n, lambda i: _VepLine(self, zz(i)), tag='lines of the VEP table')]
         self._cur = st
@@ -1137,6 +1139,8 @@ class _RedTable(Contract):
         st = types.SimpleNamespace(yielded=[])
         st.tab = T14.Table(I, self.NCOL, 'REDItools_table')
         st.tab.maybe_not_a_number = (9,)
+        if T14.first_loop_kind(I, self.path, self.qualname) != 'while':
+            raise Unsupported('the reader is not written as `while line: ... line = next(handle, None)` (this contract follows that form)')
         st.args = [OpaqueStr(['table.tsv']), self.TXCOL]
         self._cur = st
         return st
